@@ -24,6 +24,10 @@ pub fn match1(ratios: &[&str], reduced: bool) -> Alphabet {
         evs.push(buy(d, "X", "10", &format!("{bp}.5"), "2"));
         evs.push(sell(d, "X", "5", &format!("{}", sp + 1), "1"));
         evs.push(sell(d, "X", "10", &format!("{}", sp + 2), "0"));
+        if !reduced && (i == 1 || i == 5) {
+            // shares acquired for nothing (allowable cost exactly 0) on a day with sales
+            evs.push(buy(d, "X", "7", "0", "0"));
+        }
         if !reduced {
             evs.push(buy(d, "X", "3", &format!("{bp}"), "0"));
             evs.push(sell(d, "X", "0.5", &format!("{sp}"), "0"));
@@ -59,6 +63,10 @@ pub fn oversell() -> Alphabet {
             evs.push(unsplit(off(b, o), "X", r));
         }
     }
+    // value-range corners: a sale exceeding the holding by less than a millionth of a share, and a dust sale
+    evs.push(sell(off(b, 1), "X", "100.0000004", "20", "0"));
+    evs.push(sell(off(b, 8), "X", "128.00000009", "20", "0"));
+    evs.push(sell(off(b, 8), "X", "0.0000009", "20", "0"));
     let mut rules = Rules::STRICT;
     rules.allow_dup = true;
     rules.one_sell = false;
@@ -393,4 +401,22 @@ pub fn fx_years() -> Alphabet {
     evs.push(dividend(date(2024, 1, 20), "A", "30 USD", "3 USD"));
     evs.push(dividend(date(2025, 1, 20), "A", "30 USD", "3 EUR"));
     Alphabet::new("fx-years", evs, Rules::STRICT)
+}
+
+/// `two-sec-fx` (C09): security A quoted in USD and security B in EUR on the same dates (same calendar months), fees
+/// in a third currency on some lines: nothing of one security's conversion may reach the other's figures.
+pub fn two_sec_fx() -> Alphabet {
+    let b = base();
+    let mut evs = vec![];
+    for (k, (tk, cur, other)) in [("A", "USD", "EUR"), ("B", "EUR", "USD")].iter().enumerate() {
+        for (i, o) in [-40i64, 0, 1, 10].iter().enumerate() {
+            let d = off(b, *o);
+            let p = 10 + i + 3 * k;
+            evs.push(buy(d, tk, "10", &format!("{p} {cur}"), &format!("1 {cur}")));
+            evs.push(sell(d, tk, "4", &format!("{} {cur}", p + 10), &format!("0.5 {other}")));
+            evs.push(sell(d, tk, "10", &format!("{} {cur}", p + 11), "0"));
+        }
+        evs.push(dividend(off(b, 2), tk, &format!("30 {cur}"), &format!("3 {cur}")));
+    }
+    Alphabet::new("two-sec-fx", evs, Rules::STRICT)
 }
